@@ -1132,6 +1132,45 @@ func derivesFromField(v ssa.Value, field string) bool {
 
 // ThresholdPlumbing: the connection's compression threshold is stored as given
 // and applied unchanged to both directions.
+// reachesZlib: the call, or something it calls inside net/packet, calls into compress/zlib.
+func (c *Ctx) reachesZlib(ci ssa.CallInstruction) bool {
+	seen := map[*ssa.Function]bool{}
+	var visit func(f *ssa.Function, d int) bool
+	visit = func(f *ssa.Function, d int) bool {
+		if f == nil || seen[f] || d > 4 {
+			return false
+		}
+		seen[f] = true
+		if f.Pkg != nil && f.Pkg.Pkg.Path() == "compress/zlib" {
+			return true
+		}
+		if !inPkgs(f, "net/packet") {
+			return false
+		}
+		for _, b := range f.Blocks {
+			for _, in := range b.Instrs {
+				if c2, ok := in.(ssa.CallInstruction); ok {
+					if strings.HasPrefix(calleeName(c2.Common()), "compress/zlib.") {
+						return true
+					}
+					// static callees only: an interface call on an io.Writer resolves to every writer of the program
+					if g := c2.Common().StaticCallee(); g != nil && visit(core.Origin(g), d+1) {
+						return true
+					}
+				}
+			}
+		}
+		return false
+	}
+	if strings.HasPrefix(calleeName(ci.Common()), "compress/zlib.") {
+		return true
+	}
+	if g := ci.Common().StaticCallee(); g != nil && visit(core.Origin(g), 0) {
+		return true
+	}
+	return false
+}
+
 func (c *Ctx) ThresholdPlumbing() []core.Ob {
 	var obs []core.Ob
 	mk := func(key, want string, fn *ssa.Function) core.Ob {
@@ -1141,11 +1180,13 @@ func (c *Ctx) ThresholdPlumbing() []core.Ob {
 		}
 		return o
 	}
+	thresholdField := "?"
 	st := c.Fn("net.(*Conn).SetThreshold")
 	o := mk("SetThreshold-stores-argument", "SetThreshold stores exactly its argument (every value, including 0 = compress everything)", st)
 	if st == nil {
 		o.Status, o.Got = core.Violated, "net.(*Conn).SetThreshold not found"
 	} else {
+		// the threshold field is whichever int field of the connection SetThreshold stores into
 		n := 0
 		for _, b := range st.Blocks {
 			for _, in := range b.Instrs {
@@ -1153,17 +1194,19 @@ func (c *Ctx) ThresholdPlumbing() []core.Ob {
 				if !ok {
 					continue
 				}
-				if p, ok := fieldPathFromRecv(s.Addr, st.Params[0]); !ok || p != "threshold" {
+				p, ok := fieldPathFromRecv(s.Addr, st.Params[0])
+				if !ok || p == "" || !isIntegerType(s.Val.Type(), types.SizesFor("gc", "amd64")) {
 					continue
 				}
 				n++
+				thresholdField = p
 				if s.Val != ssa.Value(st.Params[1]) {
 					o.Status, o.Got = core.Violated, "the stored value is not the parameter itself (it is transformed first)"
 				}
 			}
 		}
-		if n == 0 {
-			o.Status, o.Got = core.Violated, "no store to the threshold field"
+		if n != 1 {
+			o.Status, o.Got = core.Violated, fmt.Sprintf("%d stores to integer fields of the connection (want exactly one: the threshold)", n)
 		}
 	}
 	obs = append(obs, o)
@@ -1181,7 +1224,7 @@ func (c *Ctx) ThresholdPlumbing() []core.Ob {
 		} else {
 			args := calls[0].Common().Args
 			last := args[len(args)-1]
-			if p, ok := fieldPathFromRecv(last, fn.Params[0]); !ok || p != "threshold" {
+			if p, ok := fieldPathFromRecv(last, fn.Params[0]); !ok || p != thresholdField {
 				ob.Status, ob.Got = core.Violated, "the threshold argument is not a plain read of the threshold field"
 			}
 		}
@@ -1204,13 +1247,25 @@ func (c *Ctx) ThresholdPlumbing() []core.Ob {
 				if cmp, ok := iff.Cond.(*ssa.BinOp); ok {
 					if k, ok := constIntVal(cmp.Y); ok && cmp.X == ssa.Value(fn.Params[len(fn.Params)-1]) {
 						// which successor calls the *WithCompression variant?
+						// (the one whose branch reaches compress/zlib, by call graph)
 						comp := -1
 						for i, s := range b.Succs {
-							for _, in := range s.Instrs {
-								if ci, ok := in.(ssa.CallInstruction); ok && strings.Contains(calleeName(ci.Common()), "WithCompression") {
-									comp = i
+							if len(s.Preds) != 1 {
+								continue
+							}
+							for _, blk := range fn.Blocks {
+								if !s.Dominates(blk) {
+									continue
+								}
+								for _, in := range blk.Instrs {
+									if ci, ok := in.(ssa.CallInstruction); ok && c.reachesZlib(ci) {
+										comp = i
+									}
 								}
 							}
+						}
+						if comp < 0 {
+							continue
 						}
 						// semantic form: for which thresholds is the compressed variant chosen?
 						var sb []string
